@@ -242,7 +242,17 @@ fn expected(o: &Opt, st: (St, usize, usize)) -> String {
 
 fn build(case: &Case) -> Result<anyhow::Result<TrippyConfig>, String> {
     let args = Args::try_parse_from(&case.argv).map_err(|e| format!("clap rejected {:?}: {}", case.argv, e.to_string().lines().next().unwrap_or("")))?;
-    let file: ConfigFile = if case.toml.is_empty() { toml::from_str("").map_err(|e| e.to_string())? } else { toml::from_str(&case.toml).map_err(|e| format!("toml rejected: {e}\n{}", case.toml))? };
+    let file: ConfigFile = if case.toml.is_empty() {
+        toml::from_str("").map_err(|e| e.to_string())?
+    } else {
+        match toml::from_str(&case.toml) {
+            Ok(f) => f,
+            // the text is TOML (a generic parse succeeds) and is made of documented keys with valid
+            // values only: the configuration file loader has no business rejecting it
+            Err(e) if toml::from_str::<toml::Table>(&case.toml).is_ok() => return Err(format!("FILE-REJECTED: {}", e.to_string().lines().next().unwrap_or(""))),
+            Err(e) => return Err(format!("toml rejected: {e}\n{}", case.toml)),
+        }
+    };
     // has privileges, does not need them: privileged and unprivileged modes are both allowed
     Ok(build_config(args, file, &Privilege::new(true, false), 4242))
 }
@@ -283,6 +293,11 @@ fn precedence_job(seed: u64, j: usize, tier: Tier) -> Outcome {
             let cfg = match res {
                 Err(p) => {
                     o.violate("build_config_never_panics", format!("{}|{}", op.name, p.site()), format!("panic at {}:{}: {}", p.file, p.line, p.message), replay);
+                    continue;
+                }
+                Ok(Err(e)) if e.starts_with("FILE-REJECTED") => {
+                    o.hit("config_file_of_documented_keys_is_accepted");
+                    o.violate("config_file_of_documented_keys_is_accepted", e.split(':').nth(1).unwrap_or("").trim().chars().take(60).collect::<String>(), format!("a configuration file that only sets documented keys to valid values was rejected by the loader: {e}\n{}", case.toml), replay);
                     continue;
                 }
                 Ok(Err(e)) => {
